@@ -15,6 +15,7 @@ import Driver.C15
 import Driver.Pair
 import Driver.Net
 import Driver.PairReq
+import Driver.NetLossy
 open Lean Driver
 
 def dispatch (j : Json) : R Json := do
@@ -37,6 +38,7 @@ def dispatch (j : Json) : R Json := do
   | "c15" => Driver.C15.handle op j
   | "pair" => Driver.Pair.handle op j
   | "net" => Driver.Net.handle op j
+  | "netl" => Driver.NetLossy.handle op j
   | "pairreq" => Driver.PairReq.handle op j
   | "ping" => return obj [("pong", Json.bool true)]
   | _ => throw s!"unknown op prefix {pfx}"
